@@ -37,6 +37,10 @@ def crystals():
     out['ortho'] = (crystal.Crystal(np.diag([1.1 * a, 0.9 * a, a]), [np.zeros(3)], chemistry=['A']), 0, 1.15 * a)
     out['mono'] = (crystal.Crystal(np.array([[1., 0., 0.35], [0., 0.9, 0.], [0., 0., 1.1]]), [np.zeros(3)], chemistry=['A']), 0, 1.2)
     out['oblique2d'] = (crystal.Crystal(np.array([[1., 0.3], [0., 1.15]]), [np.zeros(2)], chemistry=['A']), 0, 1.25)
+    # omega structure with the two-site Wyckoff set listed FIRST: sitelist [[0,1],[2]], i.e. the first site of set w is not site w
+    hexl = a * np.array([[0.5, 0.5, 0.], [-math.sqrt(3) / 2, math.sqrt(3) / 2, 0.], [0., 0., 0.62]])
+    out['omegaR'] = (crystal.Crystal(hexl, [np.array([1. / 3., 2. / 3., .5]), np.array([2. / 3., 1. / 3., .5]), np.zeros(3)], chemistry=['A']),
+                     0, 0.66 * a)
     return out
 
 
@@ -94,7 +98,7 @@ def jsonable(d):
 
 def small_calculators(ctx):
     names = ['fcc', 'sq2d', 'rect2d-2site', 'oblique2d', 'hcp', 'twoW'] if ctx.quick else \
-        ['fcc', 'bcc', 'hcp', 'sq2d', 'tri2d', 'honey2d', 'rumpled', 'twoW', 'rect2d-2site', 'oblique2d', 'triclinic']
+        ['fcc', 'bcc', 'hcp', 'sq2d', 'tri2d', 'honey2d', 'rumpled', 'twoW', 'omegaR', 'rect2d-2site', 'oblique2d', 'triclinic']
     return [(n, calculator(n, 1)) for n in names]
 
 
